@@ -387,8 +387,9 @@ def run_client_case(case, ctx, cl):
         # ---- the raw echo peer ------------------------------------------------
         if peer is None:
             try:
-                s, _a = ls.accept()
-                peer = cl.add(tk.RawPeer(s, tk.peer_server_ctx() if tls else None, server_side=True))
+                s = tk.accept_from(ls, client.cs)
+                if s is not None:
+                    peer = cl.add(tk.RawPeer(s, tk.peer_server_ctx() if tls else None, server_side=True))
             except BlockingIOError:
                 pass
         if peer is not None and not peer.closed:
@@ -596,7 +597,7 @@ def run_server_case(case, ctx, cl):
         sig = (len(speer.inb), len(speer.out), speer.ready)
         if sig == last:
             idle += 1
-            tk.wait_any([speer.sock], 5)
+            tk.wait_any([speer.sock], 10)
         else:
             idle = 0
         last = sig
